@@ -59,6 +59,10 @@ type Scenario struct {
 	// (a logger may block - file, network, a mutex of the application); the listed sites hold no library lock.
 	SlowLog   string `json:"slow_logger_at,omitempty"`
 	SlowLogMs int    `json:"slow_logger_ms,omitempty"`
+	// SlowHandler: the application's connection-level event handler ("disconnected" | "reconnected") takes SlowHandlerMs
+	// (virtual); the library calls these handlers inline in its reconnect loop.
+	SlowHandler   string `json:"slow_event_handler,omitempty"`
+	SlowHandlerMs int    `json:"slow_event_handler_ms,omitempty"`
 }
 
 // SlowLogSites are log calls of the library that sit between two steps of the reconnect / resume procedure.
@@ -371,8 +375,18 @@ func Run(s Scenario) *Outcome {
 			mu.Unlock()
 			return iscp.Token(tk), nil
 		})),
-		iscp.WithConnDisconnectedEventHandler(iscp.DisconnectedEventHandlerFunc(func(*iscp.DisconnectedEvent) { disc.Add(1) })),
-		iscp.WithConnReconnectedEventHandler(iscp.ReconnectedEventHandlerFunc(func(*iscp.ReconnectedEvent) { recon.Add(1) })),
+		iscp.WithConnDisconnectedEventHandler(iscp.DisconnectedEventHandlerFunc(func(*iscp.DisconnectedEvent) {
+			disc.Add(1)
+			if s.SlowHandler == "disconnected" {
+				time.Sleep(time.Duration(s.SlowHandlerMs) * time.Millisecond)
+			}
+		})),
+		iscp.WithConnReconnectedEventHandler(iscp.ReconnectedEventHandlerFunc(func(*iscp.ReconnectedEvent) {
+			recon.Add(1)
+			if s.SlowHandler == "reconnected" {
+				time.Sleep(time.Duration(s.SlowHandlerMs) * time.Millisecond)
+			}
+		})),
 	}
 	if os.Getenv("VERIF_DEBUG") != "" {
 		opts = append(opts, iscp.WithConnLogger(log.NewStd()))
@@ -392,7 +406,7 @@ func Run(s Scenario) *Outcome {
 			opts = append(opts, iscp.VerifWithSentStorage(store))
 		}
 	}
-	slowLogSlack := 4 * time.Duration(s.SlowLogMs) * time.Millisecond
+	slowLogSlack := 4*time.Duration(s.SlowLogMs)*time.Millisecond + 4*time.Duration(s.SlowHandlerMs)*time.Millisecond
 	conn, err := w.Connect(opts...)
 	if err != nil {
 		o.Notes = append(o.Notes, "connect: "+err.Error())
